@@ -61,9 +61,13 @@ func (m *Mutex) Unlock() {
 	if !m.locked {
 		panic("sync: unlock of unlocked mutex")
 	}
+	// The scheduling point comes BEFORE the release (as before every other visible operation): other
+	// threads can then run while the lock is held, so a TryLock can fail on a critical section that
+	// contains no scheduling point of its own. (A yield after the release would add nothing: the next
+	// visible operation of this thread yields before it executes.)
+	vrt.Yield("mutex.Unlock", m.obj())
 	vrt.HBRelease(m)
 	m.locked = false
-	vrt.Yield("mutex.Unlock", m.obj())
 }
 func (m *Mutex) TryLock() bool {
 	if !vrt.On() {
@@ -123,12 +127,11 @@ func (m *RWMutex) Unlock() {
 	if !m.w {
 		panic("sync: Unlock of unlocked RWMutex")
 	}
+	if !m.Quiet {
+		vrt.Yield("rw.Unlock", m.obj()) // before the release, see Mutex.Unlock
+	}
 	vrt.HBRelease(m)
 	m.w = false
-	if m.Quiet {
-		return
-	}
-	vrt.Yield("rw.Unlock", m.obj())
 }
 func (m *RWMutex) RLock() {
 	if !vrt.On() {
@@ -150,12 +153,11 @@ func (m *RWMutex) RUnlock() {
 	if m.r <= 0 {
 		panic("sync: RUnlock of unlocked RWMutex")
 	}
+	if !m.Quiet {
+		vrt.Yield("rw.RUnlock", m.obj()) // before the release, see Mutex.Unlock
+	}
 	vrt.HBRelease(rside{m})
 	m.r--
-	if m.Quiet {
-		return
-	}
-	vrt.Yield("rw.RUnlock", m.obj())
 }
 func (m *RWMutex) TryLock() bool {
 	if !vrt.On() {
